@@ -259,6 +259,11 @@ func ruleCodecAgreement(w *World, r *Run, rule string) {
 				}
 			}
 		}
+		if term["[10]"] {
+			// WriteString("\n") and WriteRune('\n') write the same byte
+			delete(term, "[10]")
+			term["10"] = true
+		}
 		delim := map[string]bool{}
 		for _, s := range us {
 			for _, c := range calls(s, "strings.Split", "strings.HasSuffix", "strings.SplitAfter", "strings.TrimSuffix") {
